@@ -98,6 +98,8 @@ pub struct PairModel {
     pub whitelist: Vec<String>,
     pub mins: [u128; 2],
     pub lp_decimals: u8,
+    /// both assets are bank denoms or cw20-base instances (the properties are stated for these)
+    pub standard: bool,
 }
 
 impl PairModel {
@@ -173,6 +175,10 @@ impl Model {
             AssetInfo::Token { contract_addr } => Some(contract_addr),
             _ => None,
         }
+    }
+    /// pair i, only if both of its assets are standard tokens
+    pub fn std_pair(&self, i: usize) -> Option<&PairModel> {
+        self.pairs.get(i).filter(|p| p.standard)
     }
     pub fn pair_by_addr(&self, addr: &str) -> Option<usize> {
         self.pairs.iter().position(|p| p.addr == addr)
